@@ -19,3 +19,5 @@ def _f2(ctx):
 
 
 STRUCTURAL = [_f2]
+
+VALIDATION = [validate_bs4]
